@@ -157,6 +157,56 @@ def check_query(acc, pre, report, row, col, trailing, with_cb, fail_at, case, pa
         acc.failure("C18:consumed_wrong_amount", case, "consumed %d characters, preceding+report = %d" % (inp.pos, len(pre) + len(report)))
 
 
+class Collector(list):
+    """A callable that is falsy while empty (a collector object used as extra_bytes_callback)."""
+
+    def __call__(self, data):
+        self.append(data)
+
+
+def shard_long(args):
+    """Long input ahead of the report: every length 0..420 and a sparser sweep up to 1 500, both CSI forms, with and without escape
+    sequences inside; and a callback object that is callable but falsy."""
+    tier, seed, idx = args
+    from curtsies.window import CursorAwareWindow
+
+    acc = Acc(seed=seed)
+    lengths = list(range(0, 421)) + ([512, 719, 720, 721, 1000, 1024, 1100] if tier != "thorough" else list(range(421, 1500, 3)))
+    for li, L in enumerate(lengths):
+        if li % 16 != idx:
+            continue
+        for filler in ("a", "ab\x1b[A"):
+            pre = (filler * (L // len(filler) + 1))[:L]
+            if pre.endswith("\x1b") or pre.endswith("\x1b["):
+                pre = pre[: pre.rfind("\x1b")] + "zz"[: len(pre) - pre.rfind("\x1b")]
+            for csi in ("\x1b[", "\x9b"):
+                report = "%s12;7R" % csi
+                if ambiguous(pre, report):
+                    continue
+                case = {"preceding_length": len(pre), "filler": filler, "report": report, "trailing": "x", "callback": True}
+                acc.case(True, key=("long", L, filler, csi), sample=case)
+                acc.transitions += 1
+                check_query(acc, pre, report, 12, 7, "x", True, (), case)
+    if idx == 0:
+        px = proxy()
+        for pre in ("", "a", "\x1b[A", "xy\n"):
+            for csi in ("\x1b[", "\x9b"):
+                col = Collector()
+                inp = ScriptedIn(px.slave, pre + csi + "3;4R" + "tail")
+                win = CursorAwareWindow(out_stream=px, in_stream=inp, extra_bytes_callback=col)
+                case = {"preceding": pre, "report": csi + "3;4R", "callback": "callable collector that is falsy while empty"}
+                acc.case(True, key=("collector", pre, csi), sample=case)
+                acc.transitions += 1
+                try:
+                    res = win.get_cursor_position()
+                except Exception as ex:  # noqa
+                    acc.failure("C18:query_raises:" + type(ex).__name__, case, repr(ex))
+                    continue
+                if res != (2, 3) or list(col) != ([pre.encode("utf-8")] if pre else []) or inp.pos != len(pre) + len(csi) + 4:
+                    acc.failure("C18:extra_bytes", case, "returned %r, collector got %r, consumed %d" % (res, list(col), inp.pos))
+    return acc.export()
+
+
 def shard_a(args):
     tier, seed, idx, nshards = args
     acc = Acc(seed=seed, sample_stride=2999)
@@ -378,6 +428,8 @@ def run(ctx):
     ns = 64
     for d in ctx.pmap(shard_a, [(ctx.tier, ctx.seed, i, ns) for i in range(ns)]):
         rep.merge(d, "query_parsing")
+    for d in ctx.pmap(shard_long, [(ctx.tier, ctx.seed, i) for i in range(16)]):
+        rep.merge(d, "long_preceding_input")
     shards = []
     for (h, w) in ((3, 2), (4, 2)):
         for k0 in range(0, h):
